@@ -35,7 +35,14 @@ BUDGET = {"quick": 3000, "thorough": 40000}  # element reads the reference may s
 TIER = ["quick"]
 
 
+
 def shards(tier, seed):
+    from vf import engine
+
+    return engine.with_interpreter_options(_plain_shards(tier, seed))
+
+
+def _plain_shards(tier, seed):
     return campaign.tree_shards(TREES[tier], 3 if tier == "quick" else 16, capture=True)
 
 
